@@ -1,5 +1,5 @@
 (* Codec/Props_codec.v — property theorems of the codec area (statement + `exact lemma` only). *)
-From FlacCodec Require Import Parser_proofs Wf Spec Roundtrip_sub Roundtrip_hdr Roundtrip_frame Agree_frame Totality Progress Stream EncChoice Damage Prefix Interrupted Inverse Inverse_frame StreamRd StreamRd_proofs Lengths ParseWf Admissible DecLengths MustReject Enc Enc_proofs.
+From FlacCodec Require Import Parser_proofs Wf Spec Roundtrip_sub Roundtrip_hdr Roundtrip_frame Agree_frame Totality Progress Stream EncChoice Damage Prefix Interrupted Inverse Inverse_frame StreamRd StreamRd_proofs Lengths ParseWf Admissible DecLengths MustReject Enc Enc_proofs File.
 From FlacBase Require Import Crc.
 Open Scope N_scope.
 
@@ -230,6 +230,17 @@ Theorem C01_encoder_stream_lossless : forall o L si rate bps blocks k bytes fuel
   (length bytes < fuel)%nat ->
   dec_frames fuel si cur bytes acc = (rev acc ++ map interleave_frame blocks, EndEof).
 Proof. exact enc_stream_roundtrip. Qed.
+(* C01 for the encoder, whole FILES: "fLaC", STREAMINFO, any further metadata blocks, then the frames of the
+   blocks — the stream decoder returns the STREAMINFO, the blocks in order, and ends cleanly *)
+Theorem C01_encoder_file_lossless : forall o L si others blocks bytes,
+  enc_blocks o L (si_rate si) (si_bps si) 0 blocks = Some bytes ->
+  si_ok si -> blocks_ok others ->
+  Forall (block_ok si (si_bps si)) blocks ->
+  N.of_nat (length blocks) <= MAX_FRAME_NUMBER + 1 ->
+  short_only_last si blocks ->
+  (si_total si = 0 \/ blocks_samples blocks = si_total si) ->
+  dec_stream (file_of si others bytes) = Some (si, map interleave_frame blocks, EndEof).
+Proof. exact enc_file_roundtrip. Qed.
 (* C19 for the encoder as written: no side condition on the wasted bits is left *)
 Theorem C19_encoder_subframe_bound : forall o L bps xs,
   xs <> [] -> forallb (fits bps) xs = true -> 1 <= bps ->
@@ -253,7 +264,7 @@ Proof. exact enc_sub_constant. Qed.
 (* non-vacuity: a 16-bit stereo block of 6 samples satisfies block_ok and the model encoder turns it into
    a side/right frame with FIXED predictors, which decodes back *)
 Definition ex_si : streaminfo := {| si_min_bs := 16; si_max_bs := 16; si_min_fs := 0; si_max_fs := 0; si_rate := 44100;
-  si_channels := 2; si_bps := 16; si_total := 0; si_md5 := [] |}.
+  si_channels := 2; si_bps := 16; si_total := 0; si_md5 := [0; 0; 0; 0; 0; 0; 0; 0; 0; 0; 0; 0; 0; 0; 0; 0] |}.
 Definition ex_block : list (list Z) := [[10; 12; 15; 19; 24; 30]%Z; [9; 12; 14; 19; 23; 30]%Z].
 Definition ex_opts : eopts := {| eo_max_po := 5; eo_mid_side := true; eo_exhaustive := true; eo_rice2 := false |}.
 Example ex_block_ok : block_ok ex_si 16 ex_block.
@@ -266,6 +277,13 @@ Example ex_encoder_roundtrip :
   | Some b => dec_frame (Some ex_si) (fun _ => Ok tt) (b ++ [7]) = Ok (
       {| h_variable := false; h_bs_code := 6; h_bs := 6; h_rate_code := 9; h_rate := 44100; h_assign := 9;
          h_bps_code := 4; h_bps := 16; h_number := 0 |}, ex_block, [7])
+  | None => False end.
+Proof. vm_compute. reflexivity. Qed.
+
+Example ex_encoder_file :
+  match enc_blocks ex_opts None 44100 16 0 [ex_block] with
+  | Some b => dec_stream (file_of ex_si [(4, [0; 0; 0; 0; 0; 0; 0; 0])] b) =
+              Some (ex_si, [[10; 9; 12; 12; 15; 14; 19; 19; 24; 23; 30; 30]%Z], EndEof)
   | None => False end.
 Proof. vm_compute. reflexivity. Qed.
 
